@@ -17,14 +17,14 @@ EXTENDS SITypes, TLC, Json
 CONSTANTS MaxOps, MaxRef
 VARIABLES vec, ops
 Prim == [path |-> <<>>, params |-> <<>>, def |-> [tag |-> "primitive", prim |-> "u8"], docs |-> <<>>]
-SeqOf(i) == [path |-> <<>>, params |-> <<>>, def |-> [tag |-> "sequence", ty |-> i], docs |-> <<>>]
+SeqTy(i) == [path |-> <<>>, params |-> <<>>, def |-> [tag |-> "sequence", ty |-> i], docs |-> <<>>]
 SelfRef(n) == [path |-> <<"m", "S">>, params |-> <<>>, def |-> [tag |-> "composite", fields |-> <<[name |-> <<"next">>, ty |-> n, tn |-> <<>>, docs |-> <<>>]>>], docs |-> <<>>]
 Known(b) == \E i \in 1..Len(vec) : vec[i] = b
 Register(b, op) == /\ Len(ops) < MaxOps /\ ops' = Append(ops, op)
                    /\ vec' = IF Known(b) THEN vec ELSE Append(vec, b)
 Init == vec = <<>> /\ ops = <<>>
 Next == \/ Register(Prim, [k |-> "prim"])
-        \/ \E i \in 0..MaxRef : Register(SeqOf(i), [k |-> "seq", i |-> i])
+        \/ \E i \in 0..MaxRef : Register(SeqTy(i), [k |-> "seq", i |-> i])
         \/ Register(SelfRef(Len(vec)), [k |-> "selfref"])
 Spec == Init /\ [][Next]_<<vec, ops>>
 Finish == [p \in 1..Len(vec) |-> WithId(vec[p], p - 1)]
